@@ -284,7 +284,7 @@ pub fn gen(rng: &mut Rng, tier: &str, dist: &mut Dist) -> Vec<String> {
     let scale = if tier == "thorough" { 10 } else { 1 };
     let mut cmds = Vec::new();
     // ---- renormalisation -----------------------------------------------------------------------
-    for i in 0..400 * scale {
+    for i in 0..300 * scale {
         let off: i32 = match rng.below(6) {
             0 => 0,
             1 => i32::MAX,
@@ -311,7 +311,7 @@ pub fn gen(rng: &mut Rng, tier: &str, dist: &mut Dist) -> Vec<String> {
         cmds.push(format!("norm {off} {align} {}", ilist(&vals)));
     }
     // ---- direct bits ---------------------------------------------------------------------------
-    for _ in 0..1500 * scale {
+    for _ in 0..900 * scale {
         let len = 1 + rng.below(12) as usize;
         let buf: Vec<u8> = match rng.below(4) {
             0 => vec![0xFF; len],
@@ -335,7 +335,7 @@ pub fn gen(rng: &mut Rng, tier: &str, dist: &mut Dist) -> Vec<String> {
         cmds.push(format!("dbits {} {pos} {range} {code} {count}", hex(&buf)));
     }
     // ---- extend_match / fast reject ------------------------------------------------------------
-    for _ in 0..1200 * scale {
+    for _ in 0..900 * scale {
         let maxlen = if rng.chance(1, 5) { 700 } else { 60 };
         let len = 1 + rng.below(maxlen) as usize;
         let class = *rng.pick(&["constant", "periodic", "lowentropy", "runs", "random"]);
@@ -349,7 +349,7 @@ pub fn gen(rng: &mut Rng, tier: &str, dist: &mut Dist) -> Vec<String> {
         dist.bump(if d > start1 { "xmatch.distance_before_buffer" } else if rp + lim > len { "xmatch.limit_beyond_buffer" } else if rp + lim == len { "xmatch.touches_end" } else if d == start1 { "xmatch.touches_start" } else { "xmatch.inside" });
         cmds.push(format!("xmatch {} {rp} {cl} {d} {lim}", hex(&buf)));
     }
-    for _ in 0..600 * scale {
+    for _ in 0..400 * scale {
         let len = 2 + rng.below(80) as usize;
         let class = *rng.pick(&["constant", "periodic", "lowentropy", "runs"]);
         let buf = gen_data_len(rng, class, len);
@@ -387,7 +387,7 @@ pub fn gen(rng: &mut Rng, tier: &str, dist: &mut Dist) -> Vec<String> {
     // ---- LZMA2 chunks whose range decoder runs off the end of the chunk buffer ---------------------
     let mut made = 0;
     let mut tries = 0;
-    while made < 250 * scale && tries < 4000 * scale {
+    while made < 200 * scale && tries < 4000 * scale {
         tries += 1;
         // far copies of random material: most symbols are matches with long distances, i.e.
         // many direct bits close to the end of the chunk
